@@ -189,7 +189,7 @@ func (g G) refAddr(simple bool) string {
 	case 3:
 		if !simple && g.Chance(45) {
 			// declarations two and three levels below the resource
-			return Pick(g, refTypes) + "." + n + "." + Pick(g, []string{"disk[0]", "disk[1]", "disk[0].gb", "disk[1].path", "conn.host", `tags["k"]`, "disk[1].gb"})
+			return Pick(g, refTypes) + "." + n + "." + Pick(g, []string{"disk[0]", "disk[1]", "disk[0].gb", "disk[1].path", "conn.host", `tags["k"]`, "disk[1].gb", `tags["a b"]`, `tags["say \"hi\""]`, `tags["k"]`})
 		}
 		return Pick(g, refTypes) + "." + n + "." + Pick(g, []string{"name", "size", "tags", "ami", "aws_id", "disk", "conn", "missing"})
 	case 4:
@@ -252,7 +252,9 @@ func (g G) refExpr(simple bool) string {
 }
 
 func (g G) refLiteral() string {
-	return Pick(g, []string{`"s"`, "1", "true", `["x", "y"]`, `{ k = "v", z = 1 }`, `{ k = { z = true } }`, `[{ k = 1 }]`, "[]", "{}"})
+	return Pick(g, []string{`"s"`, "1", "true", `["x", "y"]`, `{ k = "v", z = 1 }`, `{ k = { z = true } }`, `[{ k = 1 }]`, "[]", "{}",
+		// keys that are no identifiers: blanks, an escaped quote, multi-byte
+		`{ "say \"hi\"" = "v" }`, `{ "a b" = "v", k = "w" }`, `{ "é" = "v" }`})
 }
 
 func (g G) refConfig(root m.BodyM, paths []string, pi int, simple bool) string {
@@ -304,7 +306,8 @@ func (g G) refConfig(root m.BodyM, paths []string, pi int, simple bool) string {
 			}
 			switch an {
 			case "tags":
-				fmt.Fprintf(&sb, "  tags = { k = %s }%s", g.refExpr(simple), nl)
+				// (keys that are no identifiers: their index steps need quoting / escaping when rendered)
+				fmt.Fprintf(&sb, "  tags = { %s = %s }%s", Pick(g, []string{"k", "k", `"say \"hi\""`, `"a b"`}), g.refExpr(simple), nl)
 			case "size":
 				fmt.Fprintf(&sb, "  size = %s%s", Pick(g, []string{"1", g.refExpr(simple)}), nl)
 			default:
